@@ -182,7 +182,7 @@ def ctlOp (s : RState) (t : List String) : RState :=
     | none => { s with expectObs := none }
   | ["isrunning", a] => { s with expectObs := some s!"ok {(w.host! (hostOf a)).running}" }
   | ["setcurve", _] => { s with expectObs := some "ok" }
-  | ["simclock"] => { s with expectObs := some s!"ok elapsed={w.elapsed} epoch={1700000000000000000 + w.elapsed}" }
+  | ["simclock"] => { s with expectObs := some s!"ok elapsed={w.elapsed} epoch={1700000000123456789 + w.elapsed}" }
   | _ => { s with expectObs := none }
 
 /-- Process one trace line. -/
